@@ -306,6 +306,8 @@ def _poll_branch(ctx, a, c):
 @model("<Poll as FromResidual>::from_residual", doc="core: Err(e) => Ready(Err(e.into()))")
 def _poll_from_residual(ctx, a, c):
     r = need_res(a[0])
+    if re.search(r"Poll<(?:std::option::)?Option<", c):
+        return Enum("Poll", "Ready", 0, [some(err(r.f[0]))])
     return Enum("Poll", "Ready", 0, [err(r.f[0])])
 
 
@@ -1296,3 +1298,174 @@ def _refstr_eq(ctx, a, c):
 @model("<Authority as ToString>::to_string", doc="http: Display of an authority is its text")
 def _auth_to_string(ctx, a, c):
     return as_str(ctx, a[0])
+
+
+# ================================================================================================
+# VecDeque (alloc::collections::vec_deque) as a list of cells; std::net::SocketAddr
+# ================================================================================================
+class VecDequeV:
+    def __init__(self, items=()):
+        self.cells = [Cell(x, "dq") for x in items]
+
+    def clone_model(self, ctx):
+        return VecDequeV([clone_value(ctx, c.v) for c in self.cells])
+
+    def values(self):
+        return [c.v for c in self.cells]
+
+
+def dq_of(ctx, v):
+    d = deref(ctx, v)
+    if not isinstance(d, VecDequeV):
+        raise Inconclusive("expected VecDeque, got " + repr(d))
+    return d
+
+
+@model("VecDeque::iter", "VecDeque::iter_mut", "<&VecDeque as IntoIterator>::into_iter", "<&mut VecDeque as IntoIterator>::into_iter", "<VecDeque as IntoIterator>::into_iter", doc="alloc: front-to-back iteration over element references")
+def _dq_iter(ctx, a, c):
+    return IterV([Ref(cell) for cell in dq_of(ctx, a[0]).cells])
+
+
+@model("<Iter as Iterator>::enumerate", "Iterator::enumerate", doc="core: pairs (index, item)")
+def _enumerate(ctx, a, c):
+    it = a[0]
+    it.enum = True
+    return it
+
+
+@model("<Enumerate as Iterator>::next", "<IterMut as Iterator>::next", doc="core: next (index, item) / item")
+def _enum_next(ctx, a, c):
+    it = deref(ctx, a[0])
+    if not isinstance(it, IterV):
+        raise Inconclusive("next() on " + repr(it))
+    if it.pos >= len(it.items):
+        return none()
+    i = it.pos
+    it.pos += 1
+    if getattr(it, "enum", False):
+        return some(Agg("tuple", [z3.BitVecVal(i, 64), it.items[i]]))
+    return some(it.items[i])
+
+
+def _concrete_index(ctx, v, what):
+    s = z3.simplify(v)
+    if not z3.is_bv_value(s):
+        raise Inconclusive(what + " with a symbolic index")
+    return s.as_long()
+
+
+@model("VecDeque::remove", doc="alloc: removes and returns the element at index, shifting the rest; None if out of bounds")
+def _dq_remove(ctx, a, c):
+    d = dq_of(ctx, a[0])
+    i = _concrete_index(ctx, a[1], "VecDeque::remove")
+    if i >= len(d.cells):
+        return none()
+    return some(d.cells.pop(i).v)
+
+
+@model("VecDeque::push_front", doc="alloc")
+def _dq_push_front(ctx, a, c):
+    dq_of(ctx, a[0]).cells.insert(0, Cell(a[1], "dq"))
+    return UNIT
+
+
+@model("VecDeque::push_back", doc="alloc")
+def _dq_push_back(ctx, a, c):
+    dq_of(ctx, a[0]).cells.append(Cell(a[1], "dq"))
+    return UNIT
+
+
+@model("VecDeque::pop_front", doc="alloc")
+def _dq_pop_front(ctx, a, c):
+    d = dq_of(ctx, a[0])
+    return some(d.cells.pop(0).v) if d.cells else none()
+
+
+@model("VecDeque::len", doc="alloc")
+def _dq_len(ctx, a, c):
+    return z3.BitVecVal(len(dq_of(ctx, a[0]).cells), 64)
+
+
+@model("VecDeque::is_empty", doc="alloc")
+def _dq_is_empty(ctx, a, c):
+    return z3.BoolVal(not dq_of(ctx, a[0]).cells)
+
+
+@model("VecDeque::new", "<VecDeque as Default>::default", doc="alloc")
+def _dq_new(ctx, a, c):
+    return VecDequeV()
+
+
+@model("SocketAddr::set_port", doc="std::net: replaces the port, keeps the address")
+def _sa_set_port(ctx, a, c):
+    sa = deref(ctx, a[0])
+    if not (isinstance(sa, Enum) and sa.ty == "SocketAddr"):
+        raise Inconclusive("set_port on " + repr(sa))
+    ctx.store(a[0], Enum("SocketAddr", sa.variant, sa.idx, [Agg("addr", [sa.f[0].f[0], a[1]])]))
+    return UNIT
+
+
+# ================================================================================================
+# Pin / channels
+# ================================================================================================
+@model("<Pin as DerefMut>::deref_mut", "<Pin as Deref>::deref", "Pin::get_mut", "Pin::get_unchecked_mut", "Pin::get_ref", "Pin::into_ref", "Pin::new", "Pin::new_unchecked", "Pin::as_mut", "Pin::as_ref",
+       "Pin::into_inner", "Pin::set",
+       doc="core::pin: Pin<P> is represented by P itself; (de)referencing and re-pinning are the identity on the pointer")
+def _pin_identity(ctx, a, c):
+    v = a[0]
+    if c.strip().split("::")[-1].startswith("set"):
+        ctx.store(deref_once(ctx, v), a[1])
+        return UNIT
+    # `&mut Pin<&mut T>` -> the inner `&mut T`
+    inner = v
+    if isinstance(inner, Ref):
+        tgt = ctx.load(inner)
+        if isinstance(tgt, Ref):
+            return tgt
+    return inner
+
+
+def deref_once(ctx, v):
+    if isinstance(v, Ref):
+        t = ctx.load(v)
+        if isinstance(t, Ref):
+            return t
+    return v
+
+
+class OneshotSenderV:
+    """tokio::sync::oneshot::Sender<T>: `alive` = the receiving half still exists and is open"""
+
+    def __init__(self, alive, tag=""):
+        self.alive = alive
+        self.tag = tag
+        self.sent = None
+        self.dropped = False
+
+    def mir_drop(self, ctx):
+        self.dropped = True
+
+
+@model("Sender::send", doc="tokio oneshot: Ok(()) and the value is delivered iff the receiver is still there, else Err(value) hands the value back")
+def _oneshot_send(ctx, a, c):
+    s = a[0]
+    if not isinstance(s, OneshotSenderV):
+        raise Inconclusive("oneshot send on " + repr(s))
+    if ctx.branch(s.alive, "receiver alive at send"):
+        s.sent = a[1]
+        ctx.events.append(("oneshot_delivered", s.tag, a[1]))
+        return ok(UNIT)
+    return err(a[1])
+
+
+@model("Sender::is_closed", doc="tokio oneshot: true iff the receiver was dropped or closed")
+def _oneshot_is_closed(ctx, a, c):
+    s = deref(ctx, a[0])
+    if not isinstance(s, OneshotSenderV):
+        raise Inconclusive("is_closed on " + repr(s))
+    return z3.Not(s.alive)
+
+
+@model("cmp::min", "std::cmp::min", doc="core")
+def _min(ctx, a, c):
+    return z3.If(z3.ULE(a[0], a[1]), a[0], a[1])
